@@ -1797,10 +1797,11 @@ func (w *World) checkReplayFirstVersionOnNewHandle() *Violation {
 		return nil
 	}
 	vs := w.Vers[w.Base]
-	if vs == nil || !vs.Logged {
+	if vs == nil {
 		return nil
 	}
-	// the recorded writes must rebuild the version from the empty tree (not the case for an imported first version)
+	// the recorded writes must rebuild the version from the empty tree (not the case for an imported first version, or
+	// when the write log of that version is incomplete): decided by the reference hash
 	var root *RNode
 	for _, o := range vs.Writes {
 		switch o.Kind {
